@@ -68,23 +68,23 @@ CHECKS = {
         note='IP text canonicalisation delegated to the generator (inet_pton/ntop). ' + TB),
     'C01': dict(
         level='model_checking',
-        text='TLC explores QueueCore (the queue at the grain of gevent yield points: attempts, retry/exhaustion, index-log vs in-place delivered marks, scheduler, load, announcements, flush) and proves stays-stored / removed-only-when-settled / failed-are-bounced; the real Queue is run under virtual time over the dict, pickling-dict, disk, redis-double and cloud-double backends, DFS over relay outcome histories (mapping, sequence, raised Transient/Permanent/other, retry exhaustion) and over schedules of a yielding store, every run drained, and TLC validates every trace against the QueueObs observer (conservation at every quiescent point, final disposition at the end).',
-        design='5/C01', technique='TLA+ QueueCore model (TLC exhaustive, deviation switches) + QueueObs observer: TLC trace validation of real Queue executions explored by stateless DFS over gated collaborators under virtual time',
+        text='TLC explores QueueCore (the queue at the grain of gevent yield points: attempts, retry/exhaustion, index-log vs in-place delivered marks, scheduler, load, announcements, flush) and proves stays-stored / removed-only-when-settled / failed-are-bounced; the real Queue is run under virtual time over the dict, pickling-dict, disk, redis-double and cloud-double backends, DFS over relay outcome histories (mapping, sequence, raised Transient/Permanent/other, retry exhaustion) and over schedules of a yielding store, every run drained, and TLC validates every trace against the QueueObs observer (conservation at every quiescent point, final disposition at the end). Every execution inside the model\'s vocabulary is in addition validated event by event as a behaviour of QueueCore itself (Trace_QueueCore: storage calls, attempts, back-off decisions bound to model actions, silent scheduler steps, timetable / queued ids / active ids compared at every quiescent point; drift is reported, the model\'s own viol on a real execution is a violation).',
+        design='5/C01', technique='TLA+ QueueCore model (TLC exhaustive, deviation switches) + QueueObs observer: TLC trace validation of real Queue executions explored by stateless DFS over gated collaborators under virtual time; TLC validation of the same executions against the QueueCore design model',
         note='Relay outcomes come from a contract-conforming scripted relay; redis and object store are doubles; schedules are explored to a depth bound. ' + TB),
     'C03': dict(
         level='model_checking',
-        text='TLC proves on QueueCore that no attempt includes a settled recipient and no message has two attempts in flight, for every per-recipient outcome history over three rounds on both storage semantics and every interleaving of enqueue, load, announcement, flush, timer and storage completions of the small instance, and shows each historical defect again when its deviation switch is on; real Queue executions (all backends; DFS over outcome histories; DFS and random walks over gated storage schedules; start-up race, duplicate announcements, split envelopes, bounded pools, immediate relays) are validated by TLC against the observer clauses NoResend / OneInFlight.',
-        design='5/C03', technique='TLA+ QueueCore model (TLC exhaustive, deviation switches) + QueueObs observer: TLC trace validation of real Queue executions explored by stateless DFS over gated collaborators under virtual time',
+        text='TLC proves on QueueCore that no attempt includes a settled recipient and no message has two attempts in flight, for every per-recipient outcome history over three rounds on both storage semantics and every interleaving of enqueue, load, announcement, flush, timer and storage completions of the small instance, and shows each historical defect again when its deviation switch is on; real Queue executions (all backends; DFS over outcome histories; DFS and random walks over gated storage schedules; start-up race, duplicate announcements, split envelopes, bounded pools, immediate relays) are validated by TLC against the observer clauses NoResend / OneInFlight. Every execution inside the model\'s vocabulary is in addition validated event by event as a behaviour of QueueCore itself (Trace_QueueCore: storage calls, attempts, back-off decisions bound to model actions, silent scheduler steps, timetable / queued ids / active ids compared at every quiescent point; drift is reported, the model\'s own viol on a real execution is a violation).',
+        design='5/C03', technique='TLA+ QueueCore model (TLC exhaustive, deviation switches) + QueueObs observer: TLC trace validation of real Queue executions explored by stateless DFS over gated collaborators under virtual time; TLC validation of the same executions against the QueueCore design model',
         note='Relay outcomes come from a contract-conforming scripted relay; redis and object store are doubles; schedules are explored to a depth bound. ' + TB),
     'C12': dict(
         level='model_checking',
-        text='QueueCore carries the timetable, due times and flush; TLC checks never-early and known-at-rest on it (and finds the recorded stale-entry finding D23 when announcements are duplicated). The real started Queue runs under virtual time (every gevent Timeout and the queue clock virtualised); DFS over enqueue / completion / timer expiry / flush / announcement orders with bounded and unbounded pools; TLC validates NeverEarly, Due, Known, FlushReturns, FlushAttemptsAll, EnqueueReturns at every quiescent point.',
-        design='5/C12', technique='TLA+ QueueCore model (TLC exhaustive, deviation switches) + QueueObs observer: TLC trace validation of real Queue executions explored by stateless DFS over gated collaborators under virtual time',
+        text='QueueCore carries the timetable, due times and flush; TLC checks never-early and known-at-rest on it (and finds the recorded stale-entry finding D23 when announcements are duplicated). The real started Queue runs under virtual time (every gevent Timeout and the queue clock virtualised); DFS over enqueue / completion / timer expiry / flush / announcement orders with bounded and unbounded pools; TLC validates NeverEarly, Due, Known, FlushReturns, FlushAttemptsAll, EnqueueReturns at every quiescent point. Every execution inside the model\'s vocabulary is in addition validated event by event as a behaviour of QueueCore itself (Trace_QueueCore: storage calls, attempts, back-off decisions bound to model actions, silent scheduler steps, timetable / queued ids / active ids compared at every quiescent point; drift is reported, the model\'s own viol on a real execution is a violation).',
+        design='5/C12', technique='TLA+ QueueCore model (TLC exhaustive, deviation switches) + QueueObs observer: TLC trace validation of real Queue executions explored by stateless DFS over gated collaborators under virtual time; TLC validation of the same executions against the QueueCore design model',
         note='Relay outcomes come from a contract-conforming scripted relay; redis and object store are doubles; schedules are explored to a depth bound. ' + TB),
     'C13': dict(
         level='model_checking',
-        text='Bounce policy (which failures bounce, grouped by reply, to whom, never for a null sender, never looping) is specified in the observer and in QueueCore (failed = union of disjoint bounce groups); real executions with the real Bounce class over failure histories (whole-message, per-recipient with equal / different / interleaved replies, retry exhaustion, failing bounces, null senders, factory returning None, headers-only, 8-bit bodies) are validated by TLC; content facts are extracted by the driver.',
-        design='5/C13', technique='TLA+ QueueCore model (TLC exhaustive, deviation switches) + QueueObs observer: TLC trace validation of real Queue executions explored by stateless DFS over gated collaborators under virtual time',
+        text='Bounce policy (which failures bounce, grouped by reply, to whom, never for a null sender, never looping) is specified in the observer and in QueueCore (failed = union of disjoint bounce groups); real executions with the real Bounce class over failure histories (whole-message, per-recipient with equal / different / interleaved replies, retry exhaustion, failing bounces, null senders, factory returning None, headers-only, 8-bit bodies) are validated by TLC; content facts are extracted by the driver. Every execution inside the model\'s vocabulary is in addition validated event by event as a behaviour of QueueCore itself (Trace_QueueCore: storage calls, attempts, back-off decisions bound to model actions, silent scheduler steps, timetable / queued ids / active ids compared at every quiescent point; drift is reported, the model\'s own viol on a real execution is a violation).',
+        design='5/C13', technique='TLA+ QueueCore model (TLC exhaustive, deviation switches) + QueueObs observer: TLC trace validation of real Queue executions explored by stateless DFS over gated collaborators under virtual time; TLC validation of the same executions against the QueueCore design model',
         note='Relay outcomes come from a contract-conforming scripted relay; redis and object store are doubles; schedules are explored to a depth bound. ' + TB),
     'C15': dict(
         level='model_checking',
@@ -102,8 +102,8 @@ CHECKS = {
              'acknowledged messages are found intact and that whatever load() lists can be fetched, and finds the loss when '
              'the deviation switches (acknowledge before the meta file, rewrite meta in place) are on. The same space is '
              'replayed on a real directory: every history x kill before every effect x fresh DiskStorage + fresh Queue, and '
-             'TLC validates each recovery against the reference store of acknowledged operations.',
-        design='5/C04', technique='TLA+ effect-grain crash model (TLC exhaustive) + crash-point enumeration on the real code validated by TLC',
+             'TLC validates each recovery against the reference store of acknowledged operations; the file-system effects of every history are also validated step by step as a behaviour of DiskStore itself (Trace_DiskStoreD), recovery included.',
+        design='5/C04', technique='TLA+ effect-grain crash model (TLC exhaustive) + crash-point enumeration on the real code validated by TLC against the reference store and, effect by effect, against the crash model itself',
         note='Process kill, not power loss. Effects are interposed via module attributes of slimta.diskstorage. ' + TB),
     'C07': dict(
         level='model_checking',
